@@ -338,6 +338,130 @@ class _FakeRandom:
         return perm
 
 
+class _WStop(BaseException):
+    """The watcher reached its event loop."""
+
+
+class _FwWatcher(object):
+    """The real firewall watcher (`sproc.firewall._watcher`: its priming loop and its `on_created` / `on_deleted`
+    handlers, with their reference counts) on the engine's rule directory and fake `ipset`.  The directory
+    watcher is replaced by the harness telling the handlers what changed in the rule directory since the last
+    look; `iptables` rule insertion / conntrack flushing and the watchdog are switched off."""
+
+    def __init__(self, env, run, root, rules_dir, apps_dir, hits):
+        from treadmill.sproc import firewall as fwmod
+        from treadmill import iptables, rulefile
+        self.env, self.run, self.root, self.rules_dir, self.apps_dir = env, run, root, rules_dir, apps_dir
+        self.fwmod, self.iptables, self.rulefile = fwmod, iptables, rulefile
+        self.hits = hits
+        self.handlers = None
+        self.seen = set()
+
+    def _patches(self):
+        fwmod = self.fwmod
+        noop = lambda *_a, **_k: None       # pylint: disable=unnecessary-lambda-assignment
+        return [mock.patch.object(fwmod, '_init_rules', noop), mock.patch.object(fwmod, '_configure_rules', noop),
+                mock.patch.object(fwmod.iptables, 'add_rule', noop),
+                mock.patch.object(fwmod.iptables, 'delete_rule', noop),
+                mock.patch.object(fwmod.iptables, 'flush_pt_conntrack_table', noop),
+                mock.patch.object(fwmod.iptables, 'flush_conntrack_table', noop),
+                mock.patch.object(fwmod.watchdog, 'Watchdog', mock.Mock())]
+
+    def _pt_files(self):
+        out = {}
+        for n in os.listdir(self.rules_dir):
+            cr = self.rulefile.RuleMgr.get_rule(n)
+            if cr is not None and type(cr[1]).__name__ == 'PassThroughRule':
+                out[n] = cr[1].src_ip
+        return out
+
+    def _obs(self):
+        counts = None
+        for cell in (self.handlers[0].__closure__ or ()):
+            try:
+                v = cell.cell_contents
+            except ValueError:
+                continue
+            if isinstance(v, dict) and all(isinstance(k_, str) for k_ in v):
+                counts = v
+        cnt = ','.join('%d:%d' % (ip2n(k_), v_) for k_, v_ in sorted(counts.items(), key=lambda kv: ip2n(kv[0]))) or '-'
+        st = ','.join(str(x) for x in sorted(ip2n(i) for i in self.env.ipsets.get(self.iptables.SET_PASSTHROUGHS, ()))) or '-'
+        return 'cnt=%s set=%s' % (cnt, st)
+
+    def start(self):
+        captured = {}
+
+        class _DW(object):
+            def __init__(self, _path):
+                captured['w'] = self
+
+            def wait_for_events(self, timeout=None):       # pylint: disable=unused-argument
+                raise _WStop()
+        # a new process: the kernel's set survives, the dictionary does not
+        files = self._pt_files()
+        ps = self._patches() + [mock.patch.object(self.fwmod.dirwatch, 'DirWatcher', _DW)]
+        for p_ in ps:
+            p_.start()
+        try:
+            try:
+                self.fwmod._watcher(self.root, self.rules_dir, self.apps_dir,       # pylint: disable=protected-access
+                                    os.path.join(self.root, 'watchdogs'))
+            except _WStop:
+                pass
+        finally:
+            for p_ in reversed(ps):
+                p_.stop()
+        self.handlers = (captured['w'].on_created, captured['w'].on_deleted)
+        self.seen = set(files)
+        self.run.op('wprime %s' % (','.join(str(ip2n(files[n])) for n in sorted(files)) or '-'), self._obs())
+        self.run.tags.add('fw-watcher-start')
+        self._judge('start')
+
+    def deliver(self):
+        """Tell the watcher what changed in the rule directory (inotify order: creations and deletions as they
+        happened are not recorded by the engine - deletions first, then creations, each in name order)."""
+        if self.handlers is None:
+            return
+        files = self._pt_files()
+        gone = sorted(self.seen - set(files))
+        new = sorted(set(files) - self.seen)
+        ps = self._patches()
+        for p_ in ps:
+            p_.start()
+        try:
+            for n in gone:
+                ip = self.rulefile.RuleMgr.get_rule(n)[1].src_ip
+                self.seen.discard(n)
+                try:
+                    self.handlers[1](os.path.join(self.rules_dir, n))
+                    self.run.op('wdeleted %d' % ip2n(ip), self._obs())
+                except KeyError:
+                    self.run.op('wdeleted %d' % ip2n(ip), 'KeyError')
+                    self.hits.append(fw.Hit(clause='fw-watcher-died', call_site='sproc.firewall._watcher.on_deleted',
+                                            detail='KeyError on the deletion of %s' % n))
+                    self.handlers = None
+                    return
+                self.run.tags.add('fw-watcher-deleted')
+            for n in new:
+                self.seen.add(n)
+                self.handlers[0](os.path.join(self.rules_dir, n))
+                self.run.op('wcreated %d' % ip2n(files[n]), self._obs())
+                self.run.tags.add('fw-watcher-created')
+        finally:
+            for p_ in reversed(ps):
+                p_.stop()
+        self._judge('event')
+
+    def _judge(self, when):
+        """The property on the real objects: an address is in tm:passthroughs iff a rule file names it."""
+        want = set(self._pt_files().values())
+        have = set(self.env.ipsets.get(self.iptables.SET_PASSTHROUGHS, ()))
+        if want != have:
+            self.hits.append(fw.Hit(clause='passthrough-set', call_site='sproc.firewall._watcher',
+                                    detail='after %s: rule files name %r, tm:passthroughs holds %r' % (
+                                        when, sorted(want), sorted(have))))
+
+
 def _reply_rewritten_atomically(env, bs, client, uniq, req_dir, reply):
     """The network service answers every request it still finds when it restarts (and whenever a request is
     modified): the real `ResourceService._on_created` rewrites reply.yml of a container that may be finishing
@@ -625,6 +749,8 @@ def _run_impl(case, root):
         for f, t in listing(eps_dir):
             s.add(('E', f, t))
         for k, v in env.ipsets.items():
+            if k == iptables.SET_PASSTHROUGHS:
+                continue        # maintained by the firewall watcher from the rule files: judged after it was told
             for e in v:
                 s.add(('S', k, e))
         return frozenset(s)
@@ -633,7 +759,8 @@ def _run_impl(case, root):
         def j(l):
             return '|'.join(sorted(l)) or '-'
         other = sorted(k for k, v in env.ipsets.items()
-                       if v and k not in (iptables.SET_VRING_CONTAINERS, iptables.SET_INFRA_SVC))
+                       if v and k not in (iptables.SET_VRING_CONTAINERS, iptables.SET_INFRA_SVC,
+                                          iptables.SET_PASSTHROUGHS))
         s = 'R=%s E=%s V=%s I=%s' % (
             j('%s>%s' % ft for ft in listing(rules_dir)), j('%s>%s' % ft for ft in listing(eps_dir)),
             j(env.ipsets.get(iptables.SET_VRING_CONTAINERS, ())), j(env.ipsets.get(iptables.SET_INFRA_SVC, ())))
@@ -1065,9 +1192,15 @@ def _run_impl(case, root):
     ]
     for p in patches:
         p.start()
+    fwatch = _FwWatcher(env, run, root, rules_dir, apps_dir, hits)
+    wr = random.Random(repr((case.get('ext'), len(case['ops']), len(conts))))     # side stream: watcher restarts
     try:
+        fwatch.start()
         for op in case['ops']:
             k = op[0]
+            fwatch.deliver()
+            if wr.random() < 0.15:
+                fwatch.start()          # the firewall watcher process restarts and primes itself again
             if k == 'start':
                 do_start(op[1])
             elif k == 'finish':
@@ -1082,6 +1215,7 @@ def _run_impl(case, root):
                 do_plant(op[1], op[2], op[3], op[4])
             elif k == 'bind':
                 do_bind(op[1], op[2], op[3])
+        fwatch.deliver()
     finally:
         for p in reversed(patches):
             p.stop()
